@@ -1,6 +1,6 @@
 import asyncio
 import concurrent.futures
-from collections.abc import Callable, Iterable
+from collections.abc import Callable, Iterable, Iterator
 from functools import update_wrapper
 from types import FunctionType
 from typing import TYPE_CHECKING, Any, TypeVar, cast
@@ -46,11 +46,18 @@ def is_future(value: Any) -> TypeIs[AnyFuture[Any]]:
     return asyncio.isfuture(value) or isinstance(value, concurrent.futures.Future)
 
 
+class _Infinite:
+    """The sequence 0, 1, 2, ... Every iteration starts again from 0."""
+
+    def __iter__(self) -> Iterator[int]:
+        n = 0
+        while True:
+            yield n
+            n += 1
+
+
 def infinite() -> Iterable[int]:
-    n = 0
-    while True:
-        yield n
-        n += 1
+    return _Infinite()
 
 
 def alias(name: str, doc: str, fun: Callable[_P, _T]) -> Callable[_P, _T]:
